@@ -526,4 +526,62 @@ def fixedValuesMatch (layoutArgs progArgs : List GArg) : Bool :=
     | .num a, .num b => decide (a - b ≤ defaultAtol ∧ b - a ≤ defaultAtol)
     | _, _ => true
 
+/-! ## `decompositions.rectangular_symmetric`: pushing the local phases to the end (angles in units of π) -/
+
+/-- one pass of `for i in reversed(tlist)`: `(new_phi_i, new_phi_e, new_alpha, new_beta)` from the block's phases and the two
+diagonal phases `alpha = angle(new_diags[m])`, `beta = angle(new_diags[n])`:
+`new_phi_e = (α − β) % 2π`, `new_alpha = (β − φ_e − φ_i + π) % 2π`, `new_beta = (β − φ_i + π) % 2π`, `new_phi_i = φ_i % 2π` -/
+def pushSymStep (phiI phiE alpha beta : Rat) : Rat × Rat × Rat × Rat :=
+  (mod2 phiI, mod2 (alpha - beta), mod2 (beta - phiE - phiI + 1), mod2 (beta - phiI + 1))
+
+/-- the whole loop: `new_tlist = tilist + [new_i …]`, the diagonal updated in place at the two modes of every block -/
+def symmetricPush (tilist : List (Nat × Nat × Rat × Rat)) (diags : List Rat) (tlist : List (Nat × Nat × Rat × Rat)) :
+    List (Nat × Nat × Rat × Rat) × List Rat :=
+  tlist.reverse.foldl (fun acc t =>
+    let r := pushSymStep t.2.2.1 t.2.2.2 (acc.2.getD t.1 0) (acc.2.getD t.2.1 0)
+    (acc.1 ++ [(t.1, t.2.1, r.1, r.2.1)], (acc.2.set t.1 r.2.2.1).set t.2.1 r.2.2.2)) (tilist, diags)
+
+/-! ## `GBS.compile`: post-selection values and dark counts of the combined measurement -/
+
+/-- a `MeasureFock` command: measured modes in the order written, optional `select` / `dark_counts` lists (paired with the modes by
+position: `zip(cmd.reg, option)`) -/
+structure FockCmd where
+  regs : List Nat
+  select : Option (List Nat)
+  dark : Option (List Rat)
+deriving Repr, DecidableEq
+
+/-- `dict.update(zip(regs, vals))`: later entries overwrite earlier ones; lookup by mode -/
+def optLookup {α : Type} (pairs : List (Nat × α)) (m : Nat) : Option α :=
+  (pairs.reverse.find? fun p => p.1 = m).map (·.2)
+
+/-- `zip(cmd.reg, option)` when the option is given -/
+def optPairs {α : Type} (regs : List Nat) (o : Option (List α)) : List (Nat × α) :=
+  match o with
+  | some s => regs.zip s
+  | none => []
+
+/-- ascending, duplicate-free list of the measured modes (`sorted(measured, key=ind)`) -/
+def insertSorted (m : Nat) : List Nat → List Nat
+  | [] => [m]
+  | x :: xs => if m < x then m :: x :: xs else if m = x then x :: xs else x :: insertSorted m xs
+
+def sortedModes (l : List Nat) : List Nat := l.foldr insertSorted []
+
+inductive GbsOptErr | partialSelect
+deriving Repr, DecidableEq
+
+/-- the options of the single `MeasureFock` that replaces the commands `B` (the measured modes are disjoint — checked before):
+`select` exists iff some command has one and then must cover every measured mode (else `CircuitError`), and not together with dark
+counts; `dark_counts` default to 0 on modes without.  Returns `(modes, select, dark_counts)`. -/
+def gbsOptions (B : List FockCmd) : Except GbsOptErr (List Nat × Option (List Nat) × Option (List Rat)) :=
+  let measured := sortedModes (B.flatMap (·.regs))
+  let sel : List (Nat × Nat) := B.flatMap fun c => optPairs c.regs c.select
+  let dk : List (Nat × Rat) := B.flatMap fun c => optPairs c.regs c.dark
+  let selKeys := sortedModes (sel.map (·.1))
+  if ¬ sel.isEmpty ∧ (¬ dk.isEmpty ∨ selKeys.length ≠ measured.length) then .error .partialSelect
+  else .ok (measured,
+    if sel.isEmpty then none else some (measured.map fun m => (optLookup sel m).getD 0),
+    if dk.isEmpty then none else some (measured.map fun m => (optLookup dk m).getD 0))
+
 end SFV.Hw
